@@ -472,6 +472,9 @@ def read_column(column, args=None):
     return Res(vals, False, True, dtype="int" if as_int else "float")
 
 
+STATISTICS_BASED = ("Normalize", "NormalizeZScore", "NormalizeCurveZScore", "NormalizeMeanToMid", "CvtToFuzzy",
+                    "CvtToFuzzyZScore", "CvtToFuzzyCurveZScore", "CvtToFuzzyMeanToMid")
+
 DELTA = Fraction(1, 2 ** 43)      # ~1.1e-13 relative perturbation of every computed cell (conditioning probe)
 COND_TOL = Fraction(1, 10 ** 10)  # cells that move more than this (relative to max(1,|v|)) are ill-conditioned
 
@@ -511,7 +514,19 @@ def run_model(table, cmds, perturb=False):
             return env[name]
         for ref in refs_of(c):
             get(ref, stack + (name,))
-        res = evaluate(c["cmd"], c["args"], env)
+        scope = env
+        if perturb and c["cmd"] in STATISTICS_BASED:
+            # The conditioning probe also disturbs values that come straight from the table when they feed a command
+            # whose result depends on statistics of the column (z-scores, curves over mean / std, min-max scaling): on a
+            # nearly constant column the implementation's own rounding is amplified by 1e7 and more, exact inputs or not
+            scope = dict(env)
+            for ref in refs_of(c):
+                src = env[ref]
+                if src.exact:
+                    twin = Res(list(src.vals), src.fuzzy, src.exact, src.kind, src.dtype)
+                    _post(twin, True, index[name] + 7)
+                    scope[ref] = twin
+        res = evaluate(c["cmd"], c["args"], scope)
         if not res.exact:
             _post(res, perturb, index[name] + 1)
         env[name] = res
